@@ -1,9 +1,94 @@
 import SR.Drv.Loop
-/-! Driver commands of the ActObs worker (coverage-gap closing, see DESIGN §13c). -/
+import SR.Actor.Glue
+/-! Driver commands of the ActObs worker (coverage-gap closing, see DESIGN §13c).
+Model side: `majority`, `peer-ids`, `model-peers`, `net-names`, `net-parse`, `client-start`.
+Oracle side (`o-…`): the declarative side of the theorems of `SR/Props/ActorGlue.lean`, evaluated on the
+implementation's own outputs. -/
 namespace SR.Drv.ActObs
-open SR
+open SR SR.Glue
+
+def natsStr (l : List Nat) : String := toString (SExp.ofNats l)
+
+def kindTag : Option NetKind → String
+  | some .ordered => "ordered"
+  | some .dup => "dup"
+  | some .nondup => "nondup"
+  | none => "err"
+
+def clientStr : Option ClientStart → String
+  | none => "panic"
+  | some r =>
+    let sends := SExp.list (r.sends.map fun (d, q, v) => SExp.ofNats [d, q, v])
+    toString (SExp.list [SExp.ofOpt SExp.ofNat r.awaiting, SExp.ofNat r.opCount, sends])
+
+/-- strictly ascending -/
+def ascending : List Nat → Bool
+  | a :: b :: t => a < b && ascending (b :: t)
+  | _ => true
 
 def handle : Drv.Handler
+  | "majority", [n] => do
+    let n ← n.nat?
+    pure (toString (majority n))
+  | "peer-ids", [s, ids] => do
+    let s ← s.nat?; let ids ← ids.nats?
+    pure (natsStr (peerIds s ids))
+  | "model-peers", [i, n] => do
+    let i ← i.nat?; let n ← n.nat?
+    pure (natsStr (modelPeers i n))
+  | "net-names", [] => pure (toString (SExp.list (names.map SExp.atom)))
+  | "net-parse", [s] => do
+    let s ← s.str?
+    pure (kindTag (fromStr s))
+  -- first argument: `r` (RegisterActor) or `w` (WORegisterActor); the client arm is the same text in both
+  | "client-start", [_, p, sc, i] => do
+    let p ← p.nat?; let sc ← sc.nat?; let i ← i.nat?
+    pure (clientStr (clientStart p sc i))
+  -- C15_majority_spec / C15_majority_intersect: strictly more than half, and no larger than needed
+  | "o-majority", [n, m] => do
+    let n ← n.nat?; let m ← m.nat?
+    pure (if !(n < 2 * m) then "two-disjoint-quorums-fit"
+      else if !(2 * m ≤ n + 2) then "larger-than-the-least-majority" else "ok")
+  -- C15_peer_ids_spec / C15_peer_ids_unique: sublist of ids, avoids self, drops only the occurrences of self
+  | "o-peer-ids", [s, ids, res] => do
+    let s ← s.nat?; let ids ← ids.nats?; let res ← res.nats?
+    pure (if !(res.isSublist ids) then "not-a-sublist-of-the-ids"
+      else if res.contains s then "contains-self"
+      else if res.length != ids.length - ids.count s then "dropped-a-peer" else "ok")
+  -- C06_model_peers_spec
+  | "o-model-peers", [i, n, res] => do
+    let i ← i.nat?; let n ← n.nat?; let res ← res.nats?
+    pure (if !(ascending res) then "not-ascending"
+      else if !(res.all (· < n)) then "id-out-of-range"
+      else if res.contains i then "contains-self"
+      else if res.length != (if i < n then n - 1 else n) then "wrong-count" else "ok")
+  -- C07_net_names: the listed names are distinct and parse (implementation's parse results given as kind tags) to
+  -- each of the three kinds exactly once
+  | "o-net-names", [ns, ks] => do
+    let ns ← ns.listOf? SExp.str?; let ks ← ks.listOf? SExp.str?
+    pure (if ns.length != ks.length then "length-mismatch"
+      else if !(ns.eraseDups.length == ns.length) then "duplicate-name"
+      else if !(["ordered", "dup", "nondup"].all fun k => ks.count k == 1) then "a-kind-is-not-listed-exactly-once"
+      else if ks.length != 3 then "a-listed-name-does-not-parse" else "ok")
+  -- C18_client_before_servers_panics / C18_client_start on the implementation's result
+  | "o-client-start", [p, sc, i, res] => do
+    let p ← p.nat?; let sc ← sc.nat?; let i ← i.nat?
+    if i < sc then pure (if res == SExp.atom "panic" then "ok" else "client-before-servers-accepted")
+    else if sc == 0 || i - sc > 190 then pure "ok"
+    else match res with
+    | .atom "panic" => pure "panicked-after-the-servers"
+    | .list [aw, oc, sends] => do
+      let aw ← SExp.optOf? SExp.nat? aw; let oc ← oc.nat?
+      let sends ← sends.listOf? SExp.nats?
+      if p == 0 then pure (if aw == none && oc == 0 && sends.isEmpty then "ok" else "put-count-0-client-not-idle")
+      else match sends with
+        | [[d, q, v]] =>
+          pure (if !(d < sc) then "first-put-not-to-a-server"
+            else if !(q == i && aw == some i) then "request-id-not-the-client-index-or-not-awaited"
+            else if oc != 1 then "op-count-not-1"
+            else if v != 65 + (i - sc) then "value-not-A-plus-client-number" else "ok")
+        | _ => pure "not-exactly-one-put"
+    | _ => none
   | _, _ => none
 
 end SR.Drv.ActObs
